@@ -215,7 +215,7 @@ fn handle(req: &Value) -> Value {
             // the two public ways of running one program: Interpreter::eval (vm.run) and prepare + step
             use tsrun::InterpreterConfig;
             let src = req["src"].as_str().unwrap_or("");
-            let describe = |r: Result<StepResult, tsrun::JsError>| -> Value {
+            let _describe = |r: Result<StepResult, tsrun::JsError>| -> Value {
                 match r {
                     Ok(StepResult::Continue) => json!("Continue"),
                     Ok(StepResult::Complete(v)) => json!({"complete": js_to_json(v.value())}),
@@ -226,8 +226,19 @@ fn handle(req: &Value) -> Value {
                 }
             };
             let mk = || Interpreter::with_config(InterpreterConfig { internal_modules: vec![tsrun::create_eval_internal_module()], ..Default::default() });
+            let describe_ref = |r: &Result<StepResult, tsrun::JsError>| -> Value {
+                match r {
+                    Ok(StepResult::Continue) => json!("Continue"),
+                    Ok(StepResult::Complete(v)) => json!({"complete": js_to_json(v.value())}),
+                    Ok(StepResult::NeedImports(l)) => json!({"need_imports": l.iter().map(|x| json!([x.specifier, x.resolved_path.as_str(), x.importer.as_ref().map(|p| p.as_str().to_string())])).collect::<Vec<Value>>()}),
+                    Ok(StepResult::Suspended { pending, cancelled }) => json!({"suspended": {"pending": pending.iter().map(|o| o.id.0).collect::<Vec<u64>>(), "cancelled": cancelled.iter().map(|o| o.0).collect::<Vec<u64>>()}}),
+                    Ok(StepResult::Done) => json!("Done"),
+                    Err(e) => json!({"error": format!("{}", e)}),
+                }
+            };
             let mut a = mk();
-            let ra = describe(a.eval(src, Some(ModulePath::new("/main.ts"))));
+            let ra_raw = a.eval(src, Some(ModulePath::new("/main.ts")));
+            let ra = describe_ref(&ra_raw);
             let mut b = mk();
             let mut rb = b.prepare(src, Some(ModulePath::new("/main.ts")));
             let mut n = 0u64;
@@ -236,8 +247,33 @@ fn handle(req: &Value) -> Value {
                 n += 1;
                 if n > 5_000_000 { break; }
             }
-            let rb = describe(rb);
-            json!({"eval": ra, "step": rb, "differ": ra != rb})
+            // drive both interpreters on with the same scripted host (every pending order is answered with its id) until a terminal result
+            fn finish(interp: &mut Interpreter, first: Result<StepResult, tsrun::JsError>) -> Value {
+                use tsrun::{OrderResponse, RuntimeValue};
+                let mut r = first;
+                let mut n = 0u64;
+                let mut idle = 0u32;
+                loop {
+                    n += 1;
+                    if n > 2_000_000 { return json!("step budget"); }
+                    match r {
+                        Ok(StepResult::Continue) => { r = interp.step(); }
+                        Ok(StepResult::Suspended { pending, .. }) => {
+                            if pending.is_empty() { idle += 1; if idle > 3 { return json!("suspended with nothing to answer"); } } else { idle = 0; }
+                            interp.fulfill_orders(pending.iter().map(|o| OrderResponse { id: o.id, result: Ok(RuntimeValue::unguarded(JsValue::Number(o.id.0 as f64))) }).collect());
+                            r = interp.step();
+                        }
+                        Ok(StepResult::Complete(v)) => return json!({"complete": js_to_json(v.value())}),
+                        Ok(StepResult::NeedImports(l)) => return json!({"need_imports": l.len()}),
+                        Ok(StepResult::Done) => return json!("Done"),
+                        Err(e) => return json!({"error": format!("{}", e).lines().next().unwrap_or("").to_string()}),
+                    }
+                }
+            }
+            let rb_first = describe_ref(&rb);
+            let fa = finish(&mut a, ra_raw);
+            let fb = finish(&mut b, rb);
+            json!({"eval": ra, "step": rb_first, "eval_final": fa, "step_final": fb, "differ": ra != rb_first || fa != fb})
         }
         "source_map" => {
             use tsrun::compiler::{BytecodeBuilder, Op};
